@@ -96,7 +96,7 @@ def prove(verdict, pid, inst_files, lib_note=True):
         assumptions = out
     info = {
         'obligations': len(obligations) + lib_count,
-        'discharged': len(obligations) - len(undone) + lib_count if not bad else 0,
+        'discharged': (len(obligations) + lib_count) if (ok and not bad) else (0 if bad else max(0, len(obligations) - max(1, len(undone)) + lib_count)),
         'obligations_about_generated_terms': len(obligations),
         'library_lemmas_in_cone': lib_count,
         'checker_cmd': 'cd coq && make -k -j%d %s   (coqc 8.16.1, full .vo build)' % (common.NPROC, target),
